@@ -737,14 +737,17 @@ class PendingAugAssign(PendingNode[AugAssign]):
         assign_value = expr_transf(self.nsp, self.node.value)
         if isinstance(self.node.target, Name):
             target = self.nsp.get_load_name(self.node.target.id)
+            # the result of the in-place method is bound to the target as well
             return [
-                self._aug_assign_expr(
-                    target,
-                    self.node.op,
-                    assign_value,
-                    fallback=self.nsp.get_assign(
-                        self.node.target.id,
-                        BinOp(left=target, op=self.node.op, right=assign_value),
+                self.nsp.get_assign(
+                    self.node.target.id,
+                    self._aug_assign_expr(
+                        target,
+                        self.node.op,
+                        assign_value,
+                        fallback=BinOp(
+                            left=target, op=self.node.op, right=assign_value
+                        ),
                     ),
                 )
             ]
